@@ -19,6 +19,7 @@
 //!   priority           X defined in every subset of seven templates x four fallback-prefix lists,
 //!                      registered at once and one by one in every order
 
+mod bodies;
 mod comp;
 
 use comp::{BodyKind, Call, Form, Param, Sig, Site, Ty, Verdict};
@@ -1469,6 +1470,85 @@ fn main() {
                         }
                     };
                     acc.case(!any_reject, class);
+                }
+            },
+        );
+    }
+
+    // ---------------------------------------------------------------- body-contents
+    // What the body of a call is made of (bodies.rs): every forest of at most N nodes.
+    {
+        let max_nodes = if thorough { 6 } else { 5 };
+        let per_size: Vec<u64> = (1..=max_nodes).map(bodies::forests).collect();
+        let total: u64 = per_size.iter().sum();
+        run.family(
+            Family::new(
+                "body-contents",
+                total,
+                &format!(
+                    "every ordered forest of <= {max_nodes} nodes over {{text, caller variable, include (whose template makes a call with a body itself), loop; nested call with body, set block, filter section (also empty)}} as the body of one call ({}): rendered by name and through render_str, against the text the forest denotes",
+                    per_size.iter().enumerate().map(|(i, n)| format!("{} nodes: {n}", i + 1)).collect::<Vec<_>>().join(", ")
+                ),
+            )
+            .describe(|i| {
+                let (mut n, mut idx) = (1usize, i);
+                while idx >= bodies::forests(n) {
+                    idx -= bodies::forests(n);
+                    n += 1;
+                }
+                json!({"main": bodies::source(&bodies::unrank_forest(n, idx))})
+            }),
+            |item, acc: &mut Acc| {
+                let (mut n, mut idx) = (1usize, item);
+                while idx >= bodies::forests(n) {
+                    idx -= bodies::forests(n);
+                    n += 1;
+                }
+                let forest = bodies::unrank_forest(n, idx);
+                let main = bodies::source(&forest);
+                let want = bodies::expected(&forest);
+                let tpls = vec![
+                    (format!("comps{}", bodies::EXT), bodies::BOX.to_string()),
+                    (format!("part{}", bodies::EXT), bodies::PART.to_string()),
+                    (format!("main{}", bodies::EXT), main.clone()),
+                ];
+                let case = || json!({"templates": tpls, "render": format!("main{}", bodies::EXT), "context": {bodies::CALLER_VAR.0: bodies::CALLER_VAR.1}, "expected": want});
+                let mut tera = Tera::default();
+                let added = engine::add_templates(&mut tera, &tpls);
+                if !added.is_ok() {
+                    acc.violation("body-contents:refused-at-registration", added.show(), &case);
+                    acc.case(false, "refused");
+                    return;
+                }
+                let mut ctx = Context::new();
+                ctx.insert(bodies::CALLER_VAR.0, bodies::CALLER_VAR.1);
+                let by_name = engine::render(&tera, &format!("main{}", bodies::EXT), &ctx);
+                let one_off = match engine::guarded(|| tera.render_str(&main, &ctx, false)) {
+                    Ok(Ok(s)) => Out::Ok(s),
+                    Ok(Err(e)) => Out::Err(engine::kind_tag(e.kind()).to_string(), engine::err_message(&e)),
+                    Err(p) => Out::Panic(p),
+                };
+                let d = bodies::depth(&forest);
+                let class = format!(
+                    "depth-{d}{}",
+                    if bodies::has_include_under_wrapper(&forest, false) { "/include-under-2-or-more-captures" } else { "" }
+                );
+                for (api, out) in [("render", &by_name), ("render_str", &one_off)] {
+                    match out {
+                        Out::Ok(s) if *s == want => acc.case(true, &class),
+                        Out::Ok(s) => {
+                            acc.violation(format!("body-contents:wrong-text:{api}"), format!("{api} gave {s:?}, the body denotes {want:?}"), &case);
+                            acc.case(true, "wrong-text");
+                        }
+                        Out::Err(..) => {
+                            acc.violation(format!("body-contents:refused:{api}"), format!("{api} failed: {}", out.show()), &case);
+                            acc.case(true, "refused");
+                        }
+                        Out::Panic(p) => {
+                            acc.violation(format!("body-contents:panic:{api}"), format!("{api} panicked: {p}"), &case);
+                            acc.case(true, "panic");
+                        }
+                    }
                 }
             },
         );
